@@ -57,6 +57,49 @@ CLAIMED = {
              'and of execute, report reset before delegation (history independence). Bounded: all 40 metrics against definitions computed on the model '
              'description, the identities, the filter, reused objects.',
         note=BASE + 'Metric methods over dict-valued caches are bounded only. statistics.mean/median, round uninterpreted. Reflection resolved statically.'),
+    'C01': dict(category='other', design_ref='DESIGN.md section 4 C01, section 9',
+        text='Proved for all strings: the quoting lemma of the UVL writer (safe_simple_name leaves a name bare exactly when it starts with a letter, has '
+             'only [A-Za-z0-9_] and is not a keyword; otherwise it is the name in double quotes; removing the double quotes, as the reader does, gives the '
+             'name back), writer purity. Bounded: write/read cycles (3 cycles, byte-identical text) over random fragment models with typed features, '
+             'cardinalities, nested attribute values, all operators and hostile names.',
+        note=BASE + 'The walks over ANTLR parse trees and the ANTLR front end are bounded only. Known finding C01_cardinality_like_list (lexer of the dependency). str.replace modelled for one-character patterns.'),
+    'C02': dict(category='other', design_ref='DESIGN.md section 4 C02, section 9',
+        text='Proved for all heaps: the model-side mutators every reader builds trees with -- add_relation (every child adopts the owner; the relation list '
+             'grows by exactly that relation), add_attribute, add_child, set_parent -- including their frames (field-granular modifies). Bounded: '
+             'documents written by the library and by independent emitters for the six readers: tree well-formedness, constraint-tree form, get_features.',
+        note=BASE + 'Reader walks are bounded only. Known finding C02_aggregate_features.'),
+    'C04': dict(category='other', design_ref='DESIGN.md section 4 C04, section 9',
+        text='Proved: UVLReader.set_parse_tree never returns normally on a path where the registered error listener holds an error (front-end objects opaque). '
+             'Bounded: documents from an independent UVL emitter under all its surface choices read as the denoted model (tree, types, cardinalities, '
+             'attributes, exact constraint trees); four kinds of constructed syntax errors raise.',
+        note=BASE + 'That ANTLR reports every syntax error to the listener is assumed. The parse-tree walk is bounded only. Known finding C04_comment_line (lexer of the dependency).'),
+    'C05': dict(category='other', design_ref='DESIGN.md section 4 C05, section 9',
+        text='Proved for every string (any characters): unquote(safename(s)) == s -- what the JSON writer does to a name the reader undoes -- with the exact '
+             'shape of both functions; writer purity. Bounded: 3 write/read cycles with byte-identical text and parse_json == transform over random models '
+             'with all relation kinds, abstract flags, nested attribute values, named constraints over all eight operators, hostile names.',
+        note=BASE + 'Tree and constraint walks over nested dict documents are bounded only. json library assumed (loads(dumps(j)) == j).'),
+    'C06': dict(category='other', design_ref='DESIGN.md section 4 C06, section 9',
+        text='Deductive part: writer purity (effect analysis). Bounded: 4 cycles over random AFM-fragment models (WORD names incl. keyword-embedding words, '
+             'several relations of every cardinality per parent, constraints over not/and/or/implies/iff/requires/excludes up to depth 4, integer-range and '
+             'enumerated attributes), relations compared as bags per parent.',
+        note=BASE + 'Everything except purity is bounded. ANTLR AFM front end assumed.'),
+    'C07': dict(category='other', design_ref='DESIGN.md section 4 C07, section 9',
+        text='Deductive part: writer purity (effect analysis). Bounded: 4 cycles over random FeatureIDE-fragment models with 0-3 constraints incl. single '
+             'literals and hostile names; text identical from the second write on (iff is read as two implications).',
+        note=BASE + 'Everything except purity is bounded. ElementTree / minidom assumed.'),
+    'C08': dict(category='other', design_ref='DESIGN.md section 4 C08, section 9',
+        text='Deductive part: writer purity (effect analysis). Bounded: 3 cycles with byte-identical text over random Glencoe-fragment models (solitary children, or '
+             'one ALT/OR/MUTEX/[a,b] group with mandatory companions), constraints over all eight operators with distinct names, hostile names.',
+        note=BASE + 'Everything except purity is bounded. json library assumed.'),
+    'C10': dict(category='other', design_ref='DESIGN.md section 4 C10, section 9',
+        text='Deductive part: purity of both writers; the CNF chain the SPLOT export relies on (simplify_formula / propagate_negation / to_cnf: equivalence and '
+             'normal forms, proved in C18 on the dependency source). Bounded: both exports interpreted by independent interpreters of SXFM and of the '
+             'propositional syntax over all 2^n selections against brute-force valid configurations (all trees <= 4 features, special families, random).',
+        note=BASE + 'Known findings C18_dep_simplify (XOR / EQUIVALENCE clauses), C10_pl_names. Group-semantics lemma bounded.'),
+    'C11': dict(category='other', design_ref='DESIGN.md section 4 C11, section 9',
+        text='Deductive part: writer purity. Bounded: the export parsed by an independent interpreter of the emitted Clafer subset (xor / or / mux / a..b, ?, '
+             'top-level constraints) over all 2^n selections; identifier consistency between declaration and use of features and attributes.',
+        note=BASE + 'Known finding C11_opword_names. Everything except purity is bounded.'),
     'C12': dict(category='other', design_ref='DESIGN.md section 4 C12, section 9',
         text='Decided deductively for all inputs by the effect analysis and call-site checks on the real source: each of the eight Writer.transform is pure '
              '(writes nothing reachable from the writer / model, no process-wide state), reaches no order- or process-dependent primitive (set iteration, hash, '
@@ -103,7 +146,8 @@ def main():
         json.dump(man, fh, indent=1)
 
 
-NA = {}
+NA = {'C09': 'no contract within the reach of the verifier decides a clause of this property yet: the four readers walk ElementTree / dict / ANTLR documents '
+            '(the bounded stand-in standin/props/c09.py with independent emitters and the Betty corpus exists and passes, but a property is not claimed on the stand-in alone)'}
 
 if __name__ == '__main__':
     main()
